@@ -341,17 +341,23 @@ def fold_cases(tier, seed):
                     out.append((op, w, s, w2, s2, shape))
             for j in (0, 1, 2):
                 out.append((op, w, s, w, s, "sub%d_lit" % j))       # non-random list element selected by the foreach index
+            if op in ("Eq", "Lt"):
+                out.append((op, w, s, w, s, "not_f_lit"))          # ~(field op literal)
+                out.append((op, w, s, w, s, "psel_lit"))           # field[hi:lo] op literal
+                out.append((op, w, s, w, s, "objfield_lit"))       # non-random object list: list[index].field op literal
     return out
 
 
 @contract("x_expr_evaluator.fold", ["C02"],
           ["vsc.visitors.x_expr_evaluator.XExprEvaluator.eval", "vsc.visitors.x_expr_evaluator.XExprEvaluator.visit_expr_bin",
            "vsc.visitors.x_expr_evaluator.XExprEvaluator.visit_scalar_field", "vsc.visitors.x_expr_evaluator.XExprEvaluator.visit_expr_literal",
-           "vsc.visitors.x_expr_evaluator.XExprEvaluator.visit_expr_array_subscript",
+           "vsc.visitors.x_expr_evaluator.XExprEvaluator.visit_expr_array_subscript", "vsc.visitors.x_expr_evaluator.XExprEvaluator.visit_expr_unary",
+           "vsc.visitors.x_expr_evaluator.XExprEvaluator.visit_expr_partselect", "vsc.visitors.x_expr_evaluator.XExprEvaluator.visit_expr_indexed_fieldref",
            "vsc.visitors.array_constraint_builder.ArrayConstraintBuilder.visit_constraint_if_else"],
           fold_cases, max_paths=5000,
           note="folding of an if-condition over non-random operands: 6 comparison operators x operand types x shapes field/field, "
-               "field/literal, (field+field)/field, (field+literal)/field, (non-random list[index])/literal for each index of a 3-element list; "
+               "field/literal, (field+field)/field, (field+literal)/field, (non-random list[index])/literal for each index of a 3-element list, "
+               "~(field op literal), field[hi:lo] op literal, (non-random object list)[index].field op literal; "
                "all in-type values")
 def c_fold(c, op, w, s, w2, s2, shape):
     from vsc.model.field_scalar_model import FieldScalarModel
@@ -371,7 +377,47 @@ def c_fold(c, op, w, s, w2, s2, shape):
     k = c.fresh_int("k", -(1 << 31), (1 << 31) - 1)
     N1, N2, N3, L = ExprFieldRefModel(n1), ExprFieldRefModel(n2), ExprFieldRefModel(n3), ExprLiteralModel(k, True, 32)
     F1, F2, F3, LK = ("field", n1.val.v, w, s), ("field", n2.val.v, w2, s2), ("field", n3.val.v, w, s), ("lit", k, 32, True)
-    if shape.startswith("sub"):
+    if shape in ("not_f_lit", "psel_lit", "objfield_lit"):
+        from vsc.model.expr_unary_model import ExprUnaryModel
+        from vsc.model.unary_expr_type import UnaryExprType
+        from vsc.model.expr_partselect_model import ExprPartselectModel
+        from vsc.model.expr_indexed_field_ref_model import ExprIndexedFieldRefModel
+        from vsc.model.expr_array_subscript_model import ExprArraySubscriptModel
+        from vsc.model.field_array_model import FieldArrayModel
+        from vsc.model.field_composite_model import FieldCompositeModel
+        if shape == "not_f_lit":
+            e = ExprUnaryModel(UnaryExprType.Not, ExprBinModel(N1, BinExprType[op], L))
+            truth = Not(cmp_truth(op, F1, LK))
+        elif shape == "psel_lit":
+            hi, lo = (w - 1, w // 2) if w > 1 else (0, 0)
+            e = ExprBinModel(ExprPartselectModel(N1, ExprLiteralModel(hi, False, 32), ExprLiteralModel(lo, False, 32)), BinExprType[op], L)
+            pw = hi - lo + 1
+            pv = (upat(n1.val.v, w) // (1 << lo)) % (1 << pw)
+            truth = cmp_truth(op, ("field", pv, pw, False), LK)          # a part-select is unsigned
+        else:
+            oarr = FieldArrayModel("ol", None, False, None, -1, -1, False, False)
+            vals = []
+            for k_ in range(3):
+                o = FieldCompositeModel("o%d" % k_, False)
+                f0 = o.add_field(FieldScalarModel("en", w, s, False))
+                f1 = o.add_field(FieldScalarModel("mode", w, s, False))
+                for f in (f0, f1):
+                    f.is_used_rand = False
+                    vv = c.fresh_int("ov")
+                    c.assume(in_type(vv, w, s))
+                    f.val.v = vv
+                o.is_used_rand = False
+                vals.append(f0.val.v)
+                oarr.append(o)
+                oarr.field_l[-1].is_used_rand = False
+            oarr.is_used_rand = False
+            idx = FieldScalarModel("index", 32, False, False)
+            idx.is_used_rand = False
+            idx.set_val(1)
+            sub = ExprArraySubscriptModel(ExprFieldRefModel(oarr), ExprFieldRefModel(idx))
+            e = ExprBinModel(ExprIndexedFieldRefModel(sub, [0]), BinExprType[op], L)
+            truth = cmp_truth(op, ("field", vals[1], w, s), LK)
+    elif shape.startswith("sub"):
         from vsc.model.field_array_model import FieldArrayModel
         from vsc.model.expr_array_subscript_model import ExprArraySubscriptModel
         j = int(shape[3])
